@@ -494,7 +494,8 @@ def scenario_multi(k: Kernel, plan, obs):
                 elif kind == "flush":
                     # quiescent only if every child had been started and had finished before the flush began
                     # (no yield in this test)
-                    quiescent = len(children) == plan["children"] and all(ch._popen.task.done for _, ch in children)
+                    quiescent = len(children) == plan["children"] and all(ch._popen.task.done for _, ch in children) \
+                        and (helper is None or helper._sim_task.done)      # ... and so had the parent's helper thread
                     pool.flush()
                     model.clear()
                     if quiescent:
